@@ -9,10 +9,10 @@ from ..core import SubCheck, Fail, Discard, HarnessError, metric
 from ..oracles import ntv2_file as NF
 
 RULE = ("synthetic .gsb files with 1..4 sub-grids (parent, nested children with finer spacing, disjoint siblings, grandchild or a "
-        "second top-level grid; any order in the file), 3..60 rows / columns, increments 30\"..3600\" (integer, dyadic and "
-        "milli-arc-second values), extents anywhere (both hemispheres, both longitude signs), four polynomial fields per sub-grid "
+        "second top-level grid; any order in the file), 3..60 rows / columns, increments 30\"..3600\" (integer, dyadic, "
+        "milli-arc-second and 4..6-decimal values), extents anywhere (both hemispheres, both longitude signs), four polynomial fields per sub-grid "
         "(linear, bilinear, bi-quadratic, bi-cubic control) exact in float32; ~30 queries per file: nodes, cell edges, interiors, "
-        "the outermost ring of cells, 1e-6\"..1\" inside / outside each edge, inside a child, in the parent next to a child; both "
+        "the outermost ring of cells, 1e-6\"..1\" inside / outside each edge, inside a child, in the parent next to a child, exactly on southern / eastern limits and first-row / first-column nodes; both "
         "methods, forward and reverse; non-trivial = query off the nodes with a non-constant field")
 ASSUMPTIONS = ["half-open extents (south and east edges inclusive, north and west exclusive), the NTv2 convention; queries keep a "
                "margin of at least 1e-6\" to every edge of every sub-grid (the degree -> arc-second conversion makes the exact "
